@@ -83,7 +83,8 @@ pub fn emit_rename(out: &mut Out, cfg: &Cfg, rule: &Rule, counter: usize) {
 }
 
 fn gen_rich_term(r: &mut Rng, depth: usize) -> Unifiable {
-    let names = ["$X", "$Y", "$Z", "$Head", "$T"];
+    // names that differ only by a numeric suffix, in case, or by a longer tail are different variables
+    let names = ["$X", "$Y", "$Z", "$Head", "$T", "$X_1", "$X_2", "$X_12", "$x", "$Xa", "$T_1"];
     match r.below(12) {
         0 | 1 | 2 => logic_var!(*r.pick(&names)),
         3 => atom!("a"), 4 => SInteger(7), 5 => SFloat(2.5), 6 => Unifiable::Anonymous,
@@ -219,7 +220,12 @@ pub fn run_lists(out: &mut Out, cfg: &Cfg, seed: u64, n: usize) {
         let mut ts = vec![]; for _ in 0..k { ts.push(r.pick(&u).clone()); }
         let vbar = r.chance(1, 3);
         let mut ts2 = ts.clone();
-        if vbar && k > 0 { let l = ts2.len() - 1; ts2[l] = if r.chance(1, 4) { Unifiable::Anonymous } else { logic_var!(5, "$V5") }; }
+        // with the tail flag the last term is a variable, `$_`, or a list written after the bar (`[a | [b, c]]`, `[a | []]`)
+        if vbar && k > 0 {
+            let l = ts2.len() - 1;
+            let keep_list = matches!(ts2[l], Unifiable::SLinkedList{..}) && r.chance(1, 2);
+            if !keep_list { ts2[l] = if r.chance(1, 4) { Unifiable::Anonymous } else { logic_var!(5, "$V5") }; }
+        }
         emit_mklist(out, cfg, vbar && k > 0, &ts2, false);
         emit_mklist(out, cfg, false, &ts, true);
     }
@@ -238,6 +244,8 @@ pub fn run_lists_exhaustive(out: &mut Out, cfg: &Cfg) {
         if !v.is_empty() {
             let mut v2 = v.clone(); let l = v2.len() - 1; v2[l] = logic_var!(5, "$V5");
             emit_mklist(out, cfg, true, &v2, false);
+            // a list written after the bar is spliced in as the rest
+            if matches!(v[v.len() - 1], Unifiable::SLinkedList{..}) { emit_mklist(out, cfg, true, &v, false); }
         }
     }
 }
